@@ -118,6 +118,7 @@ func c03Ops(s []int) []ref.Op {
 
 func checkC03(c *core.Ctx) {
 	defer sweepC03(c)
+	defer sidefxCases(c, "Scale", "Pow", "Exp", "Log", "Sin", "Cos", "Tan", "Sinh", "Cosh", "Tanh", "Add", "Sub", "Mul", "Div", "ElMax", "ElMin")
 	defer selfCases(c, false, "elementwise", "compare")
 	defer soakC03(c)
 	defer gridC03(c)
@@ -342,6 +343,7 @@ func checkEquals(a, b *ref.T) core.Verdict {
 
 func checkC04(c *core.Ctx) {
 	defer sweepC04(c)
+	defer sidefxCases(c, "Dot", "MatMul", "Transpose")
 	defer selfCases(c, false, "linalg")
 	defer soakC04(c)
 	defer gridC04(c)
@@ -613,6 +615,25 @@ func longShapes(thorough bool) [][]int {
 	return out
 }
 
+// smallPart: for the 'hugecancel' value mode the rounding tolerance is derived
+// from the elements that do not cancel (the huge pairs cancel exactly in any
+// reasonable summation order); other modes: all elements.
+func smallPart(mode string, xs []float64) []float64 {
+	if mode != "hugecancel" {
+		return xs
+	}
+	var out []float64
+	for _, x := range xs {
+		if math.Abs(x) < 1e300 {
+			out = append(out, x)
+		}
+	}
+	if len(out) == 0 {
+		return []float64{0}
+	}
+	return out
+}
+
 // statTol: condition-aware tolerance of a statistic of xs. Sum/Avg: relative to
 // the sum of magnitudes. Var/Std: a backward-stable algorithm has relative
 // error about n*eps*kappa with kappa = sqrt(1 + mean^2/var) (two-pass and
@@ -762,6 +783,7 @@ func c05SameOperand(c *core.Ctx) {
 
 func checkC05(c *core.Ctx) {
 	defer gridC05(c)
+	defer sidefxCases(c, "SumAlong", "MaxAlong", "MinAlong", "AvgAlong", "VarAlong", "StdAlong", "MeanAlong")
 	defer soakC05(c)
 	c05SameOperand(c)
 	composeCases(c, "compose", composeShapes, consumersReduce, false)
@@ -824,6 +846,23 @@ func checkC05(c *core.Ctx) {
 			}
 			return t
 		}},
+		{"firstmean", func(s []int) *ref.T { // the first element equals the mean of the whole tensor / of its row
+			t := enum.Generic(s, 58, 0.5, 3, true)
+			if n := len(t.V); n >= 3 {
+				t.V[0] = 2
+				for i := 1; i < n; i++ {
+					t.V[i] = 2 + float64((i%2)*2-1)*float64(1+i/2) // 2 -+ k in pairs: mean 2 when n is odd
+				}
+			}
+			return t
+		}},
+		{"hugecancel", func(s []int) *ref.T { // finite values near the overflow bound that cancel pairwise; the defined statistic is small
+			t := enum.Generic(s, 59, 0.5, 3, true)
+			for i := 0; i+1 < len(t.V)/2*2 && i < 4; i += 2 {
+				t.V[i], t.V[i+1] = 1.2e308, -1.2e308
+			}
+			return t
+		}},
 		{"tie", func(s []int) *ref.T {
 			t := enum.Generic(s, 54, 0.5, 3, true)
 			if len(t.V) >= 2 {
@@ -851,7 +890,10 @@ func checkC05(c *core.Ctx) {
 				for _, k := range kinds {
 					exp := ref.Stat(k, x.V)
 					got := global(rx, k)
-					if tol := statTol(k, x.V, exp); math.IsNaN(got) || math.Abs(got-exp) > tol {
+					if md.name == "hugecancel" && (math.IsInf(exp, 0) || math.IsNaN(exp)) {
+						continue // the defined statistic itself is not finite (squares overflow)
+					}
+					if tol := statTol(k, smallPart(md.name, x.V), exp); math.IsNaN(got) || math.Abs(got-exp) > tol {
 						return core.Fail("%s() of %v = %v, expected %v (tolerance %.3g)", k, shortT(x), got, exp, tol)
 					}
 				}
@@ -878,7 +920,10 @@ func checkC05(c *core.Ctx) {
 							for i, o := range offs {
 								buf[i] = x.V[o]
 							}
-							if tol := statTol(ref.StatKind(k), buf, exp.V[ro]); bad == "" && (math.IsNaN(g.V[ro]) || math.Abs(g.V[ro]-exp.V[ro]) > tol) {
+							if md.name == "hugecancel" && (math.IsInf(exp.V[ro], 0) || math.IsNaN(exp.V[ro])) {
+								return
+							}
+							if tol := statTol(ref.StatKind(k), smallPart(md.name, buf), exp.V[ro]); bad == "" && (math.IsNaN(g.V[ro]) || math.Abs(g.V[ro]-exp.V[ro]) > tol) {
 								bad = fmt.Sprintf("fibre %d %v: got %v, expected %v (tolerance %.3g)", ro, buf, g.V[ro], exp.V[ro], tol)
 							}
 						})
